@@ -24,7 +24,7 @@ CHECKS = {
          "Generated filter configurations (0-3 per level; pass/short-circuit/replace/attribute/middleware adapter) are driven by request sequences and 16 concurrent goroutines; the recorded per-request log must be exactly the prefix of [container.., service.., route.., handler] with reversed exits and intact hand-over.",
          "Observation through the filters/handlers themselves (public API).", "DESIGN §6 C06"),
  "C07": ("fault_enumeration", "recording-writer monitor over an enumerated switch/outcome matrix: decode-complete-stream == written log, label and enablement checks, identity twin",
-         "Enumerates entry point x container switch x route override x Accept-Encoding x pre-set Content-Encoding x provider x outcome kind (success, routing errors, panic before/after output) x payload/chunking and checks each response against the bytes the handlers logged.",
+         "Enumerates entry point x container switch x route override x Accept-Encoding x pre-set Content-Encoding x provider x outcome kind (success, routing errors, panic before/after output) x payload/chunking (plus explicit statuses, forwarding handlers, reused write buffers, io.WriteString) and checks each response against the bytes the handlers logged; every 5th ServeHTTP cell runs behind a real net/http server and is read by an http.Client.",
          "Known finding D7 (ServeHTTP + container on + route off) is listed in KNOWN_FINDINGS.txt and reported as KNOWN-FINDING.", "DESIGN §6 C07"),
  "C08": ("exploration", "reference CORS-policy monitor + filter-less twin differential over near-miss origins",
          "For each generated configuration and origin (exact, case variants, prefixes, suffixes, superstrings, look-alikes, null, empty) the response's Access-Control-* headers are judged by a reference policy, and disallowed/absent origins must be answered exactly like a twin container without the filter.", "Predicate calls are tapped to know what the predicate answered for this request.", "DESIGN §6 C08"),
@@ -52,7 +52,7 @@ CHECKS = {
          "For generated tables on the common fragment and derived URLs, S(u) is measured by probing each method; every 405 Allow set and the OPTIONS filter's Allow/Access-Control-Allow-Methods must equal S(u); OPTIONS runs no route function; other methods untouched.", "Clean URLs only.", "DESIGN §6 C17"),
  "C18": ("exploration", "N-version monitor: twin containers differing only in router",
          "Every generated request on the common fragment is sent to a CurlyRouter and a RouterJSR311 container built from the same table; status, route, parameters and Allow set must agree.",
-         "Known finding: ranking of mutually incomparable templates differs (KNOWN_FINDINGS.txt, sig c18:rank-incomparable).", "DESIGN §6 C18"),
+         "Known finding: ranking of crossing templates (each has a literal where the other has a variable) differs (KNOWN_FINDINGS.txt, sig c18:rank-incomparable); disagreements on identical, same-shape or comparable templates are reported.", "DESIGN §6 C18"),
  "C19": ("exploration", "fresh-container reference differential over sequential histories, barrier-released concurrent batches and trace on/off; race detector on",
          "Each request's response and handler-side observations on a long-lived, concurrently used container must equal what a fresh container gives that request alone through the same entry point.", "Reference per (request, entry point).", "DESIGN §6 C19"),
 }
@@ -75,7 +75,7 @@ manifest = {
  ],
  "checks": [],
  "not_applicable": [],
- "notes": "Technique family: runtime monitoring and sanitizers. Genuine defects repaired by fix: commits in /repo and recorded findings are listed in KNOWN_FINDINGS.txt; DESIGN.md §2.",
+ "notes": "Technique family: runtime monitoring and sanitizers. Genuine defects repaired by fix: commits in /repo (12) and recorded findings (2) are listed in KNOWN_FINDINGS.txt; DESIGN.md section 2. Calibration: 240 seeded changes under seeded/ (tools_seeded.py detect <id>), DESIGN.md section 8.",
 }
 for pid in sorted(CHECKS):
     level, tech, text, note, ref = CHECKS[pid]
